@@ -37,7 +37,7 @@ def examples(tier):
 @st.composite
 def strategy(draw, tier="quick"):
     regime = draw(st.sampled_from(["FLOAT", "FLOAT", "FLOAT", "BOOL", "QQ", "FREE", "MT"]))
-    g = draw(gen.grammar(regimes=[regime]))
+    g = draw(gen.grammar(regimes=[regime], **gen.size(tier)))
     return {"g": g, "perm": draw(st.sampled_from([0, 2, "rev"]))}
 
 
